@@ -76,10 +76,10 @@ theorem clsHit_notSlash (x : Char) : clsHit true [('/', '/')] x = (x != '/') := 
 
 /-- Items that cannot match '/': the regexp (resp. `filepath.Match`) reading of an item list matches exactly a
     '/'-free prefix that the component matcher accepts. -/
-theorem itemsRe_iff (b : Bool) : ∀ (p : List GItem) (k : List Char → Bool) (t : List Char),
-    p.all (okItem b) = true →
-    (rmatch (itemsRe b p) k t = true ↔
-      ∃ u v, t = u ++ v ∧ compMatch1 p u = true ∧ '/' ∉ u ∧ (b = false → '\n' ∉ u ∨ True) ∧ k v = true)
+theorem itemsRe_iff (m : Mode) : ∀ (p : List GItem) (k : List Char → Bool) (t : List Char),
+    p.all (okItem m) = true →
+    (rmatch (itemsRe m p) k t = true ↔
+      ∃ u v, t = u ++ v ∧ compMatch1 p u = true ∧ '/' ∉ u ∧ (m.anyCls = false → '\n' ∉ u ∨ True) ∧ k v = true)
   | [], k, t, _ => by
     simp only [itemsRe, rmatch, compMatch1]
     constructor
@@ -89,7 +89,7 @@ theorem itemsRe_iff (b : Bool) : ∀ (p : List GItem) (k : List Char → Bool) (
       subst this; simpa [e] using hk
   | i :: p, k, t, ok => by
     simp only [List.all_cons, Bool.and_eq_true] at ok
-    have ih := fun k t => itemsRe_iff b p k t ok.2
+    have ih := fun k t => itemsRe_iff m p k t ok.2
     cases i with
     | lit c =>
       have hc : c ≠ '/' := by
@@ -136,9 +136,8 @@ theorem itemsRe_iff (b : Bool) : ∀ (p : List GItem) (k : List Char → Bool) (
         simp only [bne_iff_ne, ne_eq]
         intro e'; subst e'; exact hs (by simp [eu, hc])
     | any =>
-      have hb : b = true := by simpa [okItem] using ok.1
-      subst hb
-      simp only [itemsRe, itemRe, if_true, rmatch]
+      have hb : m.anyCls = true := by simpa [okItem] using ok.1
+      simp only [itemsRe, itemRe, hb, if_true, rmatch]
       cases t with
       | nil =>
         simp only [Bool.false_eq_true, false_iff]
@@ -190,10 +189,10 @@ theorem itemsRe_iff (b : Bool) : ∀ (p : List GItem) (k : List Char → Bool) (
             exact ⟨by rw [e.1]; exact hu.1, u', v, e.2, hu.2, fun h => hs (by simp [h]), by simp, hk⟩
 
 
-theorem itemsRe_spec (b : Bool) (p : List GItem) (k : List Char → Bool) (t : List Char)
-    (ok : p.all (okItem b) = true) :
-    rmatch (itemsRe b p) k t = true ↔ ∃ u v, t = u ++ v ∧ compMatch1 p u = true ∧ '/' ∉ u ∧ k v = true := by
-  rw [itemsRe_iff b p k t ok]
+theorem itemsRe_spec (m : Mode) (p : List GItem) (k : List Char → Bool) (t : List Char)
+    (ok : p.all (okItem m) = true) :
+    rmatch (itemsRe m p) k t = true ↔ ∃ u v, t = u ++ v ∧ compMatch1 p u = true ∧ '/' ∉ u ∧ k v = true := by
+  rw [itemsRe_iff m p k t ok]
   constructor
   · rintro ⟨u, v, e, h1, h2, _, h3⟩; exact ⟨u, v, e, h1, h2, h3⟩
   · rintro ⟨u, v, e, h1, h2, h3⟩; exact ⟨u, v, e, h1, h2, by simp, h3⟩
@@ -328,8 +327,8 @@ theorem noAdj_tail {s : Seg} {rest : List Seg} (h : noAdjacentDstar (s :: rest) 
       | dstar => simp [noAdjacentDstar] at h
       | items p => simpa [noAdjacentDstar] using h
 
-theorem okSegs_tail {b : Bool} {s : Seg} {rest : List Seg} (h : okSegs b (s :: rest) = true) :
-    okSegs b rest = true := by
+theorem okSegs_tail {m : Mode} {s : Seg} {rest : List Seg} (h : okSegs m (s :: rest) = true) :
+    okSegs m rest = true := by
   cases s <;> simp only [okSegs, Bool.and_eq_true] at h <;> exact h.2
 
 /-- The pattern starts with `**/` and something follows (the shape `toRegexString` mistranslates in the root package). -/
@@ -337,19 +336,19 @@ def leadingDstar : List Seg → Bool
   | .dstar :: _ :: _ => true
   | _ => false
 
-theorem toReSegs_spec (b : Bool) : ∀ (segs : List Seg) (atStart : Bool) (comps : List Name),
-    okSegs b segs = true → noAdjacentDstar segs = true → gpath comps = true → comps ≠ [] → segs ≠ [] →
-    (atStart = true → leadingDstar segs = false) →
-    rmatch (toReSegs b atStart segs) (·.isEmpty) (joinSlash comps) = segMatch segs comps
+theorem toReSegs_spec (m : Mode) : ∀ (segs : List Seg) (atStart : Bool) (comps : List Name),
+    okSegs m segs = true → noAdjacentDstar segs = true → gpath comps = true → comps ≠ [] → segs ≠ [] →
+    (atStart = true → m.leadOpt = true ∨ leadingDstar segs = false) →
+    rmatch (toReSegs m atStart segs) (·.isEmpty) (joinSlash comps) = segMatch segs comps
   | [], _, _, _, _, _, _, hs, _ => absurd rfl hs
   | .items p :: rest, atStart, comps, ok, na, g, hne, _, _ => by
     obtain ⟨c, cs, rfl⟩ := List.exists_cons_of_ne_nil hne
-    have hp : p.all (okItem b) = true := by simp only [okSegs, Bool.and_eq_true] at ok; exact ok.1
+    have hp : p.all (okItem m) = true := by simp only [okSegs, Bool.and_eq_true] at ok; exact ok.1
     have hc := gname_noslash (gpath_cons g).1
     cases rest with
     | nil =>
       simp only [toReSegs, segMatch]
-      rw [Bool.eq_iff_iff, itemsRe_spec b p _ _ hp]
+      rw [Bool.eq_iff_iff, itemsRe_spec m p _ _ hp]
       simp only [Bool.and_eq_true, List.isEmpty_iff]
       constructor
       · rintro ⟨u, v, e, hm, hs, hv⟩
@@ -361,9 +360,9 @@ theorem toReSegs_spec (b : Bool) : ∀ (segs : List Seg) (atStart : Bool) (comps
       · rintro ⟨hm, rfl⟩
         exact ⟨c, [], by simp [joinSlash], hm, hc, rfl⟩
     | cons r rest' =>
-      have ih := toReSegs_spec b (r :: rest') false
+      have ih := toReSegs_spec m (r :: rest') false
       simp only [toReSegs, segMatch, rmatch]
-      rw [Bool.eq_iff_iff, itemsRe_spec b p _ _ hp]
+      rw [Bool.eq_iff_iff, itemsRe_spec m p _ _ hp]
       simp only [Bool.and_eq_true]
       constructor
       · rintro ⟨u, v, e, hm, hs, hv⟩
@@ -392,7 +391,6 @@ theorem toReSegs_spec (b : Bool) : ∀ (segs : List Seg) (atStart : Bool) (comps
           rw [ih cs (okSegs_tail ok) (noAdj_tail na) (gpath_cons g).2 hcs (by simp) (by simp)]
           exact hr
   | .dstar :: rest, atStart, comps, ok, na, g, hne, _, hstart => by
-    have hb : b = false := by simp only [okSegs, Bool.and_eq_true, Bool.not_eq_true'] at ok; exact ok.1
     cases rest with
     | nil =>
       simp only [toReSegs, segMatch, rmatch]
@@ -403,15 +401,17 @@ theorem toReSegs_spec (b : Bool) : ∀ (segs : List Seg) (atStart : Bool) (comps
       simp only [bne_iff_ne, ne_eq]
       intro e; subst e; exact joinSlash_nonl comps g hc
     | cons r rest' =>
-      have hst : atStart = false := by
+      have hcond : (atStart && !m.leadOpt) = false := by
         cases atStart with
         | false => rfl
-        | true => simp [leadingDstar] at hstart
-      subst hst
-      have ih := toReSegs_spec b (r :: rest') false
+        | true =>
+          rcases hstart rfl with h | h
+          · simp [h]
+          · simp [leadingDstar] at h
+      have ih := toReSegs_spec m (r :: rest') false
       have okt := okSegs_tail ok
       have nat := noAdj_tail na
-      simp only [toReSegs, segMatch, rmatch, Bool.false_eq_true, if_false]
+      simp only [toReSegs, segMatch, rmatch, hcond, Bool.false_eq_true, if_false]
       rw [Bool.eq_iff_iff, Bool.or_eq_true, dstarSkip_iff, starWhile_iff]
       constructor
       · rintro (⟨w, t, e, _, ht⟩ | h)
@@ -468,7 +468,7 @@ theorem starSkip_eq (k : List Char → Bool) : ∀ s, starSkip k s = starWhile (
   | [] => rfl
   | c :: s => by simp only [starSkip, starWhile, clsHit_notSlash, starSkip_eq k s]
 
-theorem gmatch_eq : ∀ (p : List GItem) (s : List Char), gmatch p s = rmatch (itemsRe true p) (·.isEmpty) s
+theorem gmatch_eq : ∀ (p : List GItem) (s : List Char), gmatch p s = rmatch (itemsRe Mode.builtin p) (·.isEmpty) s
   | [], s => by simp [gmatch, itemsRe, rmatch]
   | .lit c :: p, s => by
     cases s with
@@ -476,55 +476,56 @@ theorem gmatch_eq : ∀ (p : List GItem) (s : List Char), gmatch p s = rmatch (i
     | cons x s' => simp [gmatch, itemsRe, itemRe, rmatch, gmatch_eq p s']
   | .any :: p, s => by
     cases s with
-    | nil => simp [gmatch, itemsRe, itemRe, rmatch]
-    | cons x s' => simp only [gmatch, itemsRe, itemRe, rmatch, if_true, clsHit_notSlash, gmatch_eq p s']
+    | nil => simp [gmatch, itemsRe, itemRe, Mode.builtin, rmatch]
+    | cons x s' => simp only [gmatch, itemsRe, itemRe, Mode.builtin, rmatch, if_true, clsHit_notSlash, gmatch_eq p s']
   | .cls neg rs :: p, s => by
     cases s with
     | nil => simp [gmatch, itemsRe, itemRe, rmatch]
     | cons x s' => simp only [gmatch, itemsRe, itemRe, rmatch, clsHit, gmatch_eq p s']
   | .star :: p, s => by
-    have : gmatch p = rmatch (itemsRe true p) (·.isEmpty) := funext (gmatch_eq p)
+    have : gmatch p = rmatch (itemsRe Mode.builtin p) (·.isEmpty) := funext (gmatch_eq p)
     simp only [gmatch, itemsRe, itemRe, rmatch, this, starSkip_eq]
 
-theorem itemsRe_append (b : Bool) (k : List Char → Bool) : ∀ (p q : List GItem) (s : List Char),
-    rmatch (itemsRe b (p ++ q)) k s = rmatch (itemsRe b p) (rmatch (itemsRe b q) k) s
+theorem itemsRe_append (m : Mode) (k : List Char → Bool) : ∀ (p q : List GItem) (s : List Char),
+    rmatch (itemsRe m (p ++ q)) k s = rmatch (itemsRe m p) (rmatch (itemsRe m q) k) s
   | [], q, s => by simp [itemsRe, rmatch]
   | i :: p, q, s => by
-    have : rmatch (itemsRe b (p ++ q)) k = rmatch (itemsRe b p) (rmatch (itemsRe b q) k) :=
-      funext (itemsRe_append b k p q)
+    have : rmatch (itemsRe m (p ++ q)) k = rmatch (itemsRe m p) (rmatch (itemsRe m q) k) :=
+      funext (itemsRe_append m k p q)
     simp only [List.cons_append, itemsRe, rmatch, this]
 
 /-- Patterns without `**`: the flattened item list and the segment-wise regexp denote the same matcher. -/
 theorem flatten_toRe (k : List Char → Bool) : ∀ (segs : List Seg) (st : Bool) (s : List Char),
-    okSegs true segs = true → rmatch (itemsRe true (flattenSegs segs)) k s = rmatch (toReSegs true st segs) k s
+    okSegs Mode.builtin segs = true →
+    rmatch (itemsRe Mode.builtin (flattenSegs segs)) k s = rmatch (toReSegs Mode.builtin st segs) k s
   | [], _, _, _ => by simp [flattenSegs, toReSegs, itemsRe]
-  | .dstar :: _, _, _, ok => by simp [okSegs] at ok
+  | .dstar :: _, _, _, ok => by simp [okSegs, Mode.builtin] at ok
   | .items p :: rest, st, s, ok => by
     cases rest with
     | nil => simp [flattenSegs, toReSegs]
     | cons r rest' =>
-      have ih : rmatch (itemsRe true (flattenSegs (r :: rest'))) k = rmatch (toReSegs true false (r :: rest')) k :=
+      have ih : rmatch (itemsRe Mode.builtin (flattenSegs (r :: rest'))) k = rmatch (toReSegs Mode.builtin false (r :: rest')) k :=
         funext fun s => flatten_toRe k (r :: rest') false s (okSegs_tail ok)
       simp only [flattenSegs, toReSegs, itemsRe_append, itemsRe, itemRe, rmatch, ih]
 
-theorem okSegs_true_noAdj : ∀ (segs : List Seg), okSegs true segs = true → noAdjacentDstar segs = true
+theorem okSegs_true_noAdj : ∀ (segs : List Seg), okSegs Mode.builtin segs = true → noAdjacentDstar segs = true
   | [], _ => rfl
-  | .dstar :: _, ok => by simp [okSegs] at ok
+  | .dstar :: _, ok => by simp [okSegs, Mode.builtin] at ok
   | .items p :: rest, ok => by
     simp only [noAdjacentDstar]; exact okSegs_true_noAdj rest (okSegs_tail ok)
 
-theorem okSegs_true_noLead : ∀ (segs : List Seg), okSegs true segs = true → leadingDstar segs = false
+theorem okSegs_true_noLead : ∀ (segs : List Seg), okSegs Mode.builtin segs = true → leadingDstar segs = false
   | [], _ => rfl
-  | .dstar :: _, ok => by simp [okSegs] at ok
+  | .dstar :: _, ok => by simp [okSegs, Mode.builtin] at ok
   | .items p :: rest, _ => by simp [leadingDstar]
 
 /-- **`filepath.Match` on the fragment = the segment-wise specification.** -/
-theorem builtin_spec (segs : List Seg) (comps : List Name) (ok : okSegs true segs = true)
+theorem builtin_spec (segs : List Seg) (comps : List Name) (ok : okSegs Mode.builtin segs = true)
     (g : gpath comps = true) (hne : comps ≠ []) (hs : segs ≠ []) :
     gmatch (flattenSegs segs) (joinSlash comps) = segMatch segs comps := by
   rw [gmatch_eq, flatten_toRe _ segs true _ ok]
-  exact toReSegs_spec true segs true comps ok (okSegs_true_noAdj segs ok) g hne hs
-    (fun _ => okSegs_true_noLead segs ok)
+  exact toReSegs_spec Mode.builtin segs true comps ok (okSegs_true_noAdj segs ok) g hne hs
+    (fun _ => Or.inr (okSegs_true_noLead segs ok))
 
 /-! ### the package path in front of the pattern -/
 
@@ -542,21 +543,21 @@ theorem segMatch_root : ∀ (root : List Name) (segs : List Seg) (rel : List Nam
     simp only [List.map_cons, List.cons_append, litSeg, segMatch, compMatch1_lits, decide_true, Bool.true_and]
     exact segMatch_root root segs rel
 
-theorem okSegs_append (b : Bool) : ∀ (a c : List Seg), okSegs b a = true → okSegs b c = true → okSegs b (a ++ c) = true
+theorem okSegs_append (m : Mode) : ∀ (a c : List Seg), okSegs m a = true → okSegs m c = true → okSegs m (a ++ c) = true
   | [], _, _, h => h
   | .dstar :: a, c, ha, hc => by
-    simp only [okSegs, Bool.and_eq_true, List.cons_append] at ha ⊢; exact ⟨ha.1, okSegs_append b a c ha.2 hc⟩
+    simp only [okSegs, Bool.and_eq_true, List.cons_append] at ha ⊢; exact ⟨ha.1, okSegs_append m a c ha.2 hc⟩
   | .items p :: a, c, ha, hc => by
-    simp only [okSegs, Bool.and_eq_true, List.cons_append] at ha ⊢; exact ⟨ha.1, okSegs_append b a c ha.2 hc⟩
+    simp only [okSegs, Bool.and_eq_true, List.cons_append] at ha ⊢; exact ⟨ha.1, okSegs_append m a c ha.2 hc⟩
 
-theorem okSegs_root (b : Bool) : ∀ (root : List Name), gpath root = true → safePath b root = true →
-    okSegs b (root.map litSeg) = true
+theorem okSegs_root (m : Mode) : ∀ (root : List Name), gpath root = true → safePath m root = true →
+    okSegs m (root.map litSeg) = true
   | [], _, _ => rfl
   | c :: root, g, sp => by
     have hc := gname_noslash (gpath_cons g).1
     simp only [safePath, List.all_cons, Bool.and_eq_true, List.all_eq_true] at sp
     simp only [List.map_cons, litSeg, okSegs, Bool.and_eq_true, List.all_map, List.all_eq_true]
-    refine ⟨fun x hx => ?_, okSegs_root b root (gpath_cons g).2 (by simpa [safePath, List.all_eq_true] using sp.2)⟩
+    refine ⟨fun x hx => ?_, okSegs_root m root (gpath_cons g).2 (by simpa [safePath, List.all_eq_true] using sp.2)⟩
     simp only [Function.comp, okItem, Bool.and_eq_true, bne_iff_ne, ne_eq]
     exact ⟨by intro e; subst e; exact hc hx, sp.1 x hx⟩
 
@@ -574,31 +575,31 @@ theorem gpath_append {a c : List Name} (ha : gpath a = true) (hc : gpath c = tru
     `*`, `[class]` and literals never match '/', `**` stands for whole components (zero or more; one or more at the
     end) -- provided the pattern has no `?` next to `**`, no negated class, and is not a leading `**/x` in the root
     package. -/
-theorem structMatch_spec (root : List Name) (segs : List Seg) (rel : List Name)
-    (ok : okSegs (!hasDstar segs) segs = true) (na : noAdjacentDstar segs = true)
-    (groot : gpath root = true) (sroot : safePath (!hasDstar segs) root = true)
+theorem structMatch_spec (o : MOpts) (root : List Name) (segs : List Seg) (rel : List Name)
+    (ok : okSegs (modeOf o segs) segs = true) (na : noAdjacentDstar segs = true)
+    (groot : gpath root = true) (sroot : safePath (modeOf o segs) root = true)
     (grel : gpath rel = true) (hrel : rel ≠ []) (hs : segs ≠ [])
-    (hlead : root = [] → leadingDstar segs = false) :
-    structMatch root segs (joinSlash (root ++ rel)) = segMatch segs rel := by
+    (hlead : root = [] → o.leadOpt = true ∨ leadingDstar segs = false) :
+    structMatch o root segs (joinSlash (root ++ rel)) = segMatch segs rel := by
   have hne : root ++ rel ≠ [] := by simp [hrel]
   have hfs : root.map litSeg ++ segs ≠ [] := by simp [hs]
   have gall := gpath_append groot grel
   unfold structMatch
   cases hd : hasDstar segs with
   | false =>
-    rw [hd] at ok sroot
+    simp only [modeOf, hd, Bool.false_eq_true, if_false] at ok sroot
     simp only [Bool.false_eq_true, if_false]
-    rw [builtin_spec _ _ (okSegs_append true _ _ (okSegs_root true root groot sroot) ok) gall hne hfs, segMatch_root]
+    rw [builtin_spec _ _ (okSegs_append Mode.builtin _ _ (okSegs_root Mode.builtin root groot sroot) ok) gall hne hfs,
+      segMatch_root]
   | true =>
-    rw [hd] at ok sroot
+    simp only [modeOf, hd, if_true] at ok sroot
     simp only [if_true]
-    rw [toReSegs_spec false _ true _ (okSegs_append false _ _ (okSegs_root false root groot sroot) ok)
+    rw [toReSegs_spec (Mode.regex o) _ true _ (okSegs_append _ _ _ (okSegs_root _ root groot sroot) ok)
       (noAdj_root root segs na) gall hne hfs ?_, segMatch_root]
     intro _
     cases root with
-    | nil => simpa using hlead rfl
-    | cons c r => simp [litSeg, leadingDstar]
-
+    | nil => simpa [Mode.regex] using hlead rfl
+    | cons c r => right; simp [litSeg, leadingDstar]
 
 /-! ### helpers for the filter-level theorems -/
 
